@@ -742,37 +742,3 @@ fn c05_verdict_after_restore() {
     drop(inj);
     kani::cover!(true, "COVER:no-verdict-panic");
 }
-
-
-/// C17 / C05 (wave 9, seed C17-i): a restoration that fails part-way through the injector's drop. Two guards:
-/// the older one (built by the library's own constructor) restores 5 bytes on a page whose mprotect is refused at
-/// drop time (from the moment the newer guard has released its trampoline), the newer one is a real installation on the next page. Guards are restored newest first, so when
-/// the older guard's refusal is raised the newer function has been rewritten — and must already have been flushed:
-/// the panic unwinds out of the drop, nothing after the loop runs.
-#[kani::proof]
-#[kani::unwind(26)]
-#[kani::stub(crate::injector_core::linuxapi::__clear_cache, os::flush)]
-#[kani::stub(crate::injector_core::common::allocate_jit_memory, allocate_jit_memory_contract)]
-fn c17_drop_restore_fault() {
-    fresh_world();
-    unsafe {
-        os::PAGE_SIZE = 16;
-        os::SNAP_ON = true;
-    }
-    kani::assume(os::mem_base() % 16 == 0);
-    kani::assume(os::far_ptr() as usize <= isize::MAX as usize - 64 && os::mem_base() <= isize::MAX as usize - A);
-    let mut inj = InjectorPP::new();
-    let saved: Vec<u8> = unsafe { vec![SNAPSHOT[0], SNAPSHOT[1], SNAPSHOT[2], SNAPSHOT[3], SNAPSHOT[4]] };
-    inj.guards.push(PatchGuard::new(os::mem_ptr(0), saved, 5, std::ptr::null_mut(), 0));
-    let off = hist_install_c(&mut inj, 0, true, false);
-    assert!(inj.guards.len() == 2, "OBL:C02.guard.kept: one guard per installation is kept until drop");
-    unsafe {
-        os::MPROTECT_FAIL_AFTER_MUNMAPS = 1; // the newer guard has released its trampoline: the older guard's page is refused
-        ALLOW = bit(K_MPROTECT);
-        JUSTIFIED = true;
-        NEED_FLUSHED_OFF = off;
-        NEED_FLUSHED_LEN = 12;
-    }
-    drop(inj);
-    kani::cover!(true, "COVER:drop-returned-despite-failing-restoration");
-}
